@@ -404,6 +404,40 @@ def _guarded(prog, u: Unit, du: DefUse, c: ast.Call, nid: int, tsrc: Set[str]):
                    "compute() on a finished object steps beyond the end (or raises)")
 
 
+# --------------------------------------------------------------------- T5
+def t5(prog: Program, chk: Check) -> None:
+    chk.rule("T5", "front ends initialise their back end and their result object exactly once: "
+             "every call of initialize()/initialise()/_init_dynamics() in compute() is on the "
+             "true branch of `<step> is None`, and the result object is created nowhere else",
+             floor=8)
+    for q in FRONT_ENDS:
+        u = prog.unit(q)
+        for c in walk_local(u.node):
+            if not isinstance(c, ast.Call):
+                continue
+            mc = method_call(c)
+            if not mc or mc[1] not in ("initialize", "initialise", "_init_dynamics",
+                                       "_init_results"):
+                continue
+            ctx = branch_context(u.node, c)
+            ok = any(br and isinstance(t, ast.Compare) and len(t.ops) == 1
+                     and isinstance(t.ops[0], ast.Is) and dotted(t.left) in STEP_SOURCES
+                     and isinstance(t.comparators[0], ast.Constant)
+                     and t.comparators[0].value is None for (t, br) in ctx)
+            chk.add("T5", u, f"{norm(c.func)}() only when the step counter is None", ok,
+                    "" if ok else "the back end / result object can be re-initialised by a later "
+                                  "compute() call: earlier results are lost or recomputed", c)
+    for cq in ("tempo:Tempo", "tempo:MeanFieldTempo", "tempo:GibbsTempo"):
+        ci = prog.cls(cq)
+        writers = sorted({mu.name for mu in ci.methods.values() for st in walk_local(mu.node)
+                          if isinstance(st, ast.Assign)
+                          and any(dotted(t) == "self._dynamics" for t in st.targets)})
+        ok = set(writers) <= {"__init__", "_init_dynamics"}
+        chk.add("T5", ci.methods["__init__"], f"{ci.name}._dynamics assigned in {writers}", ok,
+                "" if ok else "the result object is replaced outside initialisation",
+                function=f"{ci.name}")
+
+
 # --------------------------------------------------------------------- T2
 GETTERS = ["tempo:Tempo.get_dynamics", "tempo:MeanFieldTempo.get_dynamics",
            "tempo:GibbsTempo.get_dynamics", "tempo:GibbsTempo.get_state",
@@ -554,6 +588,7 @@ def run(prog: Program, chk: Check) -> None:
     chk.extra["foreign_attrs"] = FOREIGN_ATTRS
     chk.extra["t3_exceptions"] = {" | ".join(k): v for k, v in T3_EXCEPTIONS.items()}
     t1(prog, chk)
+    t5(prog, chk)
     t2(prog, chk)
     t3(prog, chk)
     t4(prog, chk)
